@@ -206,7 +206,7 @@ func (r *c01Run) route(from, at *c01End) string { return from.proto + ">" + at.p
 
 // connect with extra endpoint options (the "ep" way of setting MaxRecvSize);
 // otherwise identical to hx.Connect.
-func c01ConnectOpts(srv, cli mangos.Socket, tr string, extra map[string]interface{}) error {
+func c01ConnectOpts(c *mon.Case, chop bool, srv, cli mangos.Socket, tr string, extra map[string]interface{}) error {
 	lo, do := map[string]interface{}{}, map[string]interface{}{}
 	for k, v := range extra {
 		lo[k], do[k] = v, v
@@ -222,12 +222,22 @@ func c01ConnectOpts(srv, cli mangos.Socket, tr string, extra map[string]interfac
 	if err := l.Listen(); err != nil {
 		return fmt.Errorf("Listen: %w", err)
 	}
-	d, err := cli.NewDialer(l.Address(), do)
+	addr := l.Address()
+	if chop {
+		u, stop, err := hx.ChopRelay(addr, c.Rand.Int63())
+		if err != nil {
+			return fmt.Errorf("relay: %w", err)
+		}
+		c.Cleanup(stop)
+		c.Count("connections_through_resegmenting_relay", 1)
+		addr = u
+	}
+	d, err := cli.NewDialer(addr, do)
 	if err != nil {
-		return fmt.Errorf("NewDialer(%s): %w", l.Address(), err)
+		return fmt.Errorf("NewDialer(%s): %w", addr, err)
 	}
 	if err := d.Dial(); err != nil {
-		return fmt.Errorf("Dial(%s): %w", l.Address(), err)
+		return fmt.Errorf("Dial(%s): %w", addr, err)
 	}
 	return nil
 }
@@ -288,7 +298,9 @@ func c01Run1(c *mon.Case, sp c01Spec) *c01Run {
 	c.Cleanup(r.teardown) // runs before the sockets' own cleanups (LIFO)
 	var err error
 	if sp.Limit != 0 && sp.Via == "ep" {
-		err = c01ConnectOpts(srv.sock, cli.sock, sp.Tr, map[string]interface{}{mangos.OptionMaxRecvSize: sp.limitOpt()})
+		err = c01ConnectOpts(c, sp.Chop, srv.sock, cli.sock, sp.Tr, map[string]interface{}{mangos.OptionMaxRecvSize: sp.limitOpt()})
+	} else if sp.Chop {
+		err = c01ConnectOpts(c, true, srv.sock, cli.sock, sp.Tr, nil)
 	} else {
 		_, _, err = hx.Connect(srv.sock, cli.sock, sp.Tr)
 	}
